@@ -165,7 +165,7 @@ func runC02(w *World, tier string) (bool, interface{}) {
 	mode := 0
 	if w.Tape.Bool(1, 2, "byzantine") {
 		byz = w.Tape.Choose(n, "byz")
-		mode = w.Tape.Choose(6, "byzMode")
+		mode = w.Tape.Choose(7, "byzMode")
 		w.Stats.Fault("byz-key-announcement")
 		if w.Tape.Bool(1, 2, "byzAnnouncesLast") {
 			// the deviating announcement is held back until everybody else's is on the board
@@ -202,6 +202,22 @@ func runC02(w *World, tier string) (bool, interface{}) {
 				return result
 			}
 			switch mode {
+			case 6: // the same polynomial text with the case of one base64 letter changed
+				bz := append([]byte(nil), req.PubPolyBz...)
+				var letters []int
+				for i, ch := range bz {
+					if (ch >= 'a' && ch <= 'z') || (ch >= 'A' && ch <= 'Z') {
+						// only inside the quoted commitment strings, not in the JSON keys
+						if i > 16 {
+							letters = append(letters, i)
+						}
+					}
+				}
+				if len(letters) == 0 {
+					return result
+				}
+				bz[letters[w.Tape.Choose(len(letters), "caseFlipAt")]] ^= 0x20
+				req.PubPolyBz = bz
 			case 4: // same group key, no polynomial at all (as a pre-0.1.5 node would send)
 				req.PubPolyBz = nil
 			case 5:
@@ -217,6 +233,7 @@ func runC02(w *World, tier string) (bool, interface{}) {
 				req.MasterKey = pj.Commitments[0]
 			}
 			if mode != 2 && mode < 4 {
+				// modes 0, 1, 3 edited the decoded polynomial
 				req.PubPolyBz, _ = json.Marshal(pj)
 			}
 			ro.ResultMsgs[0].Data, _ = json.Marshal(req)
